@@ -1093,10 +1093,18 @@ class Interp:
                 self._add(old)
             if not self._can_unparent_for_move(c):
                 return False
-            if p.state == "S" and "children" not in p.real.__dict__:
-                # load the target first: its lazy load would autoflush between the two steps of the move
-                # (and, under delete-orphan, delete the momentarily parentless row)
-                self.do(lambda: p.real.children)
+            # load both collections first: a lazy load would autoflush between the two steps of the move (and, under
+            # delete-orphan, delete the momentarily parentless row; appending the deleted object is then rejected
+            # with the documented "has been deleted" error).  An autoflush can turn a pending target into a
+            # persistent one with an unloaded collection, hence the loop.
+            for _ in range(3):
+                pend = [x for x in (old, p) if x.state == "S" and "children" not in x.real.__dict__]
+                if not pend:
+                    break
+                for x in pend:
+                    self.do(lambda: x.real.children)
+            if c.parent is not old or not (self.linkable(c) and self.linkable(p) and self.linkable(old)) or not self._can_unparent_for_move(c):
+                return False
             self.do(lambda: old.real.children.remove(c.real))
             moved_state = c.state
             c.parent = None
